@@ -181,10 +181,8 @@ impl<'a, W: fmt::Write> JsFunctionArgsAssigner<'a, W> {
 
     pub(crate) fn gen_ident(&mut self) -> JsIdent {
         let block = self.get_block_mut();
-        let var_id = block.ident_id_inc;
-        block.ident_id_inc += 1;
         JsIdent {
-            name: get_var_name(var_id),
+            name: next_var_name(&mut block.ident_id_inc),
         }
     }
 }
@@ -204,6 +202,27 @@ fn get_var_name(mut var_id: usize) -> String {
         var_id /= VAR_NAME_CHARS.len();
     }
     var_name
+}
+
+// Identifiers which cannot be used as generated variable names (reserved words and used globals)
+const VAR_NAME_RESERVED: [&str; 52] = [
+    "do", "if", "in", "for", "let", "new", "try", "var", "NaN", "case", "else", "enum", "eval",
+    "null", "this", "true", "void", "with", "await", "break", "catch", "class", "const", "false",
+    "super", "throw", "while", "yield", "delete", "export", "import", "public", "return", "static",
+    "switch", "typeof", "Object", "default", "extends", "finally", "package", "private", "continue",
+    "debugger", "function", "Infinity", "arguments", "interface", "protected", "undefined",
+    "implements", "instanceof",
+];
+
+/// Allocate the next variable name, skipping the ids whose names are reserved.
+fn next_var_name(id_inc: &mut usize) -> String {
+    loop {
+        let name = get_var_name(*id_inc);
+        *id_inc += 1;
+        if !VAR_NAME_RESERVED.contains(&name.as_str()) {
+            return name;
+        }
+    }
 }
 
 #[cfg(glass_easel_verif)]
@@ -230,10 +249,8 @@ impl<'a, W: fmt::Write> JsFunctionScopeWriter<'a, W> {
 
     pub(crate) fn gen_ident(&mut self) -> JsIdent {
         let block = self.get_block_mut();
-        let var_id = block.ident_id_inc;
-        block.ident_id_inc += 1;
         JsIdent {
-            name: get_var_name(var_id),
+            name: next_var_name(&mut block.ident_id_inc),
         }
     }
 
@@ -303,10 +320,8 @@ impl<'a, W: fmt::Write> JsFunctionScopeWriter<'a, W> {
 
     pub(crate) fn declare_var_on_top_scope(&mut self) -> Result<JsIdent, TmplError> {
         let block = &mut self.top_scope.block;
-        let var_id = block.ident_id_inc;
-        block.ident_id_inc += 1;
         let ident = JsIdent {
-            name: get_var_name(var_id),
+            name: next_var_name(&mut block.ident_id_inc),
         };
         self.top_scope.declare_on_top(&ident.name)?;
         Ok(ident)
@@ -317,9 +332,7 @@ impl<'a, W: fmt::Write> JsFunctionScopeWriter<'a, W> {
         init: impl FnOnce(&mut JsExprWriter<W>, JsIdent) -> Result<R, TmplError>,
     ) -> Result<R, TmplError> {
         let block = &mut self.top_scope.block;
-        let var_id = block.ident_id_inc;
-        block.ident_id_inc += 1;
-        let var_name = get_var_name(var_id);
+        let var_name = next_var_name(&mut block.ident_id_inc);
         let ident = JsIdent {
             name: var_name.clone(),
         };
@@ -435,10 +448,8 @@ impl<'a, W: fmt::Write> JsExprWriter<'a, W> {
     #[allow(dead_code)]
     pub(crate) fn declare_var_on_top_scope(&mut self) -> Result<JsIdent, TmplError> {
         let block = &mut self.top_scope.block;
-        let var_id = block.ident_id_inc;
-        block.ident_id_inc += 1;
         let ident = JsIdent {
-            name: get_var_name(var_id),
+            name: next_var_name(&mut block.ident_id_inc),
         };
         self.top_scope.declare_on_top(&ident.name)?;
         Ok(ident)
